@@ -120,6 +120,9 @@ type Cfg struct {
 	Scrypt  int    `json:"scrypt"`
 	Pass    string `json:"pass"`
 	Mnem    string `json:"mnem"`
+	Src     string `json:"src"`
+	Seedsyn string `json:"seedsyn"`
+	Syn     string `json:"syn"`
 }
 
 type Case struct {
@@ -171,6 +174,7 @@ type stats struct {
 	ByAtype   map[string]int `json:"by_atype"`
 	ByDepth   map[string]int `json:"by_depth"`
 	BySeed    map[string]int `json:"by_seed"`
+	BySrc     map[string]int `json:"by_source_syntax_seedline"`
 	Obs       map[string]int `json:"observations"`
 	Fail      int            `json:"fail"`
 	Infra     []string       `json:"infra,omitempty"`
@@ -179,7 +183,7 @@ type stats struct {
 	Summary   bool           `json:"summary"`
 }
 
-var st = &stats{ByAtype: map[string]int{}, ByDepth: map[string]int{}, BySeed: map[string]int{}, Obs: map[string]int{}, Summary: true}
+var st = &stats{ByAtype: map[string]int{}, ByDepth: map[string]int{}, BySeed: map[string]int{}, BySrc: map[string]int{}, Obs: map[string]int{}, Summary: true}
 var out *vio.Out
 var walletBin, base string
 var salt int
@@ -228,6 +232,98 @@ func runWallet(dir, stdin string, args ...string) (*runRes, error) {
 	return r, nil
 }
 
+// exec runs the wallet in the case's directory, feeding the password the way the case's source says
+func (x *lcase) exec(args ...string) (*runRes, error) {
+	args = append(args, x.extra...)
+	src := x.src
+	if src == "typedsave" && x.saved {
+		src = "file"
+	}
+	switch src {
+	case "file":
+		return runWallet(x.dir, x.p39, args...)
+	case "stdin":
+		return runWallet(x.dir, string(x.secret), append(args, "-stdin")...)
+	}
+	if src == "forceask" {
+		args = append(args, "-p")
+	}
+	if x.single {
+		args = append(args, "-1")
+	}
+	save := "n\n"
+	if src == "typedsave" {
+		save = "y\n"
+	}
+	return runWalletI(x.dir, []prompt{{"Enter your wallet's seed password: ", x.typed + "\n"}, {"Re-enter the seed password (to be sure): ", x.typed + "\n"},
+		{"(y/n) : ", save}, {"Enter the BIP39 password: ", x.p39}}, args...)
+}
+
+type prompt struct{ text, reply string }
+
+// runWalletI drives the wallet's console dialogue: stdin and stdout are pipes, every prompt that appears on stdout is answered
+// with its line (the console reader takes whatever one read() returns, so nothing may be written ahead of a prompt)
+func runWalletI(dir string, prompts []prompt, args ...string) (*runRes, error) {
+	atomic.AddInt64(&runs, 1)
+	ctx, cancel := context.WithTimeout(context.Background(), 120*time.Second)
+	defer cancel()
+	cmd := exec.CommandContext(ctx, walletBin, args...)
+	cmd.Dir = dir
+	cmd.Env = []string{"HOME=" + dir, "PATH=/usr/bin:/bin"}
+	in, err := cmd.StdinPipe()
+	if err != nil {
+		return nil, err
+	}
+	outp, err := cmd.StdoutPipe()
+	if err != nil {
+		return nil, err
+	}
+	var se bytes.Buffer
+	cmd.Stderr = &se
+	r := &runRes{Cmd: append([]string{"wallet(console)"}, args...)}
+	if err := cmd.Start(); err != nil {
+		return r, err
+	}
+	var buf []byte
+	pos := 0
+	tmp := make([]byte, 4096)
+	for {
+		n, rerr := outp.Read(tmp)
+		buf = append(buf, tmp[:n]...)
+		for {
+			best, bi := -1, -1
+			for i, p := range prompts {
+				if k := bytes.Index(buf[pos:], []byte(p.text)); k >= 0 && (best < 0 || k < best) {
+					best, bi = k, i
+				}
+			}
+			if bi < 0 {
+				break
+			}
+			pos += best + len(prompts[bi].text)
+			in.Write([]byte(prompts[bi].reply))
+			r.Cmd = append(r.Cmd, "<"+strings.TrimSpace(prompts[bi].text)+">")
+		}
+		if rerr != nil {
+			break
+		}
+	}
+	in.Close()
+	werr := cmd.Wait()
+	r.Stdout, r.Stderr = string(buf), se.String()
+	if ctx.Err() != nil {
+		return r, errors.New("wallet console dialogue timed out: " + strings.Join(args, " ") + " | " + tail(r.Stdout, 200))
+	}
+	if werr != nil {
+		if ee, ok := werr.(*exec.ExitError); ok {
+			r.Code = ee.ExitCode()
+			return r, nil
+		}
+		return r, werr
+	}
+	return r, nil
+}
+
 func prb(n int, parts ...interface{}) []byte {
 	var o []byte
 	for i := 0; len(o) < n; i++ {
@@ -258,6 +354,11 @@ type lcase struct {
 	secret  []byte // content of .secret
 	stdin   string // for -p39
 	extra   []string
+	src     string // how the password reaches the wallet
+	typed   string // what is typed at the password prompt
+	p39     string // what is typed at the BIP39 passphrase prompt ("" = never asked)
+	saved   bool   // typedsave: the wallet has written .secret, later runs read it
+	single  bool   // -1: no "Re-enter" prompt
 	log     []*runRes
 	failed  bool
 	culprit string
@@ -275,6 +376,9 @@ func (x *lcase) fail(sig, what string, detail interface{}) {
 	if x.culprit != "" {
 		what = "symptom " + sig + ": " + what + " | cause: " + x.culprit
 		sig = "pubkey-parity"
+	}
+	if cf := x.c.Cfg; cf.Src != "" {
+		what += fmt.Sprintf(" | password source: %s, wallet.cfg spelling: %s, seed= line: %s", cf.Src, cf.Syn, cf.Seedsyn)
 	}
 	f := Fail{Sig: "C14:" + sig, What: what, Line: x.line, Cfg: x.cfgTxt, Detail: detail}
 	for _, r := range x.log {
@@ -320,41 +424,119 @@ func (x *lcase) run(w int) {
 	case "long":
 		password = strings.Repeat(fmt.Sprintf("%d-%d/", salt, x.line), 60)
 	case "prefixed":
-		prefix = fmt.Sprintf("pfx%d_", salt)
 		password = fmt.Sprintf("tail %d", x.line)
 	case "":
 	default:
 		infra("line %d: unknown password kind %q", x.line, kind)
 		return
 	}
-	var c_ strings.Builder
-	fmt.Fprintf(&c_, "type=%d\nkeycnt=%d\n", cf.Wt, cf.Keycnt)
+	// ---- wallet.cfg / switches, spelled as the model's syntax class says; the seed= line as its own class says
 	variant := prn(1000, "hdvariant", salt, x.line)
+	type kv struct{ k, v, flag string }
+	var kvs []kv
+	kvs = append(kvs, kv{"type", fmt.Sprint(cf.Wt), "-type"}, kv{"keycnt", fmt.Sprint(cf.Keycnt), "-n"})
 	if cf.Wt == 4 {
-		hp := pathStr(c.Path)
-		if variant%2 == 0 {
-			hp = "\"" + hp + "\""
-		}
-		fmt.Fprintf(&c_, "hdpath=%s\nhdsubs=%d\n", hp, cf.Subs)
+		kvs = append(kvs, kv{"hdpath", pathStr(c.Path), "-hdpath"}, kv{"hdsubs", fmt.Sprint(cf.Subs), "-hdsubs"})
 		if cf.Bip39 == 1 {
-			c_.WriteString("bip39=-1\n")
+			kvs = append(kvs, kv{"bip39", "-1", "-bip39"})
 		} else if cf.Bip39 != 0 {
-			fmt.Fprintf(&c_, "bip39=%d\n", cf.Bip39)
+			kvs = append(kvs, kv{"bip39", fmt.Sprint(cf.Bip39), "-bip39"})
 		}
 	}
 	if cf.Scrypt != 0 {
-		fmt.Fprintf(&c_, "scrypt=%d\n", cf.Scrypt)
+		kvs = append(kvs, kv{"scrypt", fmt.Sprint(cf.Scrypt), "-scrypt"})
 	}
 	if cf.Testnet {
-		c_.WriteString("testnet=true\n")
+		kvs = append(kvs, kv{"testnet", "true", "-t"})
 	}
-	if prefix != "" {
-		fmt.Fprintf(&c_, "seed=%s\n", prefix)
+	kvs = append(kvs, kv{"atype", cf.Atype, "-atype"})
+	syn := cf.Syn
+	if syn == "" {
+		syn = "plain"
 	}
-	if variant%3 != 0 {
-		fmt.Fprintf(&c_, "atype=%s\n", cf.Atype)
-	} else {
-		x.extra = append(x.extra, "-atype", cf.Atype)
+	var c_ strings.Builder
+	eol := "\n"
+	if syn == "crlf" {
+		eol = "\r\n"
+	}
+	c_.WriteString("# C14 scratch wallet (" + syn + ")" + eol)
+	for _, e := range kvs {
+		switch syn {
+		case "plain", "crlf":
+			c_.WriteString(e.k + "=" + e.v + eol)
+		case "quoted": // hdpath and atype take quoted values (config.go trims the quotes)
+			if e.k == "hdpath" || e.k == "atype" {
+				c_.WriteString(e.k + "=\"" + e.v + "\"" + eol)
+			} else {
+				c_.WriteString(e.k + "=" + e.v + eol)
+			}
+		case "padded": // a line is trimmed as a whole; only atype also drops blanks right after the '='
+			if e.k == "atype" {
+				c_.WriteString(" \t" + e.k + "= " + e.v + "  \t" + eol)
+			} else {
+				c_.WriteString("  \t" + e.k + "=" + e.v + " \t " + eol)
+			}
+		case "upperkey":
+			c_.WriteString(strings.ToUpper(e.k[:1]) + strings.ToUpper(e.k[1:2]) + e.k[2:] + "=" + e.v + eol)
+		case "flags":
+			if e.k == "testnet" {
+				x.extra = append(x.extra, "-t")
+			} else {
+				x.extra = append(x.extra, e.flag+"="+e.v)
+			}
+		default:
+			infra("line %d: unknown syntax class %q", x.line, syn)
+			return
+		}
+	}
+	// seed=: literal key material; the parser keeps everything after the first '=' but blanks, tabs, CR, LF around it
+	if kind == "prefixed" && (cf.Seedsyn == "" || cf.Seedsyn == "none") {
+		cf.Seedsyn = "plain"
+	}
+	seedLine := ""
+	switch cf.Seedsyn {
+	case "", "none":
+	case "empty":
+		seedLine, prefix = "seed=", ""
+	case "plain":
+		prefix = fmt.Sprintf("pfx%d_", salt)
+		seedLine = "seed=" + prefix
+	case "inner":
+		prefix = fmt.Sprintf("top secret  words %d", x.line)
+		seedLine = "seed=" + prefix
+	case "padded":
+		prefix = fmt.Sprintf("pad%d", x.line)
+		seedLine = "seed= \t " + prefix + " \t"
+	case "crlf":
+		prefix = fmt.Sprintf("crlf%d", x.line)
+		seedLine = "seed=" + prefix + "\r"
+	case "qstart":
+		prefix = fmt.Sprintf("\"lead%d", x.line)
+		seedLine = "seed=" + prefix
+	case "qend":
+		prefix = fmt.Sprintf("%d' 11\"", x.line)
+		seedLine = "seed=" + prefix
+	case "qboth":
+		prefix = fmt.Sprintf("\"top secret %d\"", x.line)
+		seedLine = "seed=" + prefix
+	case "qinner":
+		prefix = fmt.Sprintf("a\"b\"c%d", x.line)
+		seedLine = "seed=" + prefix
+	case "eqhash":
+		prefix = fmt.Sprintf("k=v#x=%d#", x.line)
+		seedLine = "seed=" + prefix
+	case "nonascii":
+		prefix = fmt.Sprintf("\xc5\xbc\xf0\x9f\x94\x91%d\xc2\xa0", x.line)
+		seedLine = "seed=" + prefix
+	default:
+		infra("line %d: unknown seed spelling %q", x.line, cf.Seedsyn)
+		return
+	}
+	if cf.Seedsyn != "" && cf.Seedsyn != "none" {
+		if syn == "upperkey" {
+			seedLine = "SEED" + seedLine[4:]
+		}
+		c_.WriteString(seedLine + eol)
 	}
 	x.cfgTxt = c_.String()
 
@@ -379,14 +561,18 @@ func (x *lcase) run(w int) {
 					ws[i] = strings.ToUpper(ws[i])
 				}
 			}
-			typed = " " + strings.Join(ws[:4], ",  ") + "\n" + strings.Join(ws[4:], " 1.\t") + " \n"
+			nl := "\n"
+			if cf.Src == "typed" || cf.Src == "typedsave" || cf.Src == "forceask" {
+				nl = ";" // a prompt takes one line
+			}
+			typed = " " + strings.Join(ws[:4], ",  ") + nl + strings.Join(ws[4:], " 1.\t") + " " + nl
 		case "pass", "pass_space", "pass_lead", "pass_trail", "pass_tab", "pass_nl", "pass_inner", "pass_nonascii":
 			// the passphrase travels: stdin -> sys.ReadPassword (one read, trailing bytes below 0x20 dropped) -> bip39 seed,
 			// and BIP39 uses it verbatim: blanks at either end, inner blanks, tabs and non-ASCII bytes all count
 			var typed string
 			typed, userPass = passphraseOf(cf.Mnem, x.line)
 			x.extra = append(x.extra, "-p39")
-			x.stdin = typed
+			x.p39 = typed
 		case "badsum":
 			// another last word: the checksum bits live there; keep trying until refhd says the checksum is wrong
 			for k := 1; ; k++ {
@@ -413,22 +599,38 @@ func (x *lcase) run(w int) {
 		infra("%v", err)
 		return
 	}
-	if variant%5 == 1 && x.stdin == "" {
-		// the seed password through stdin instead of the .secret file
-		x.extra = append(x.extra, "-stdin")
-		x.stdin = string(x.secret)
-		count(st.Obs, "password_through_stdin")
-	} else if err := os.WriteFile(filepath.Join(x.dir, ".secret"), x.secret, 0o600); err != nil {
-		infra("%v", err)
+	x.src = cf.Src
+	if x.src == "" {
+		x.src = "file"
+	}
+	x.single = variant%3 == 0
+	// what the console reader hands over: one line, trailing control characters dropped
+	x.typed = strings.TrimRight(string(x.secret), "\x00\x01\x02\x03\x04\x05\x06\x07\x08\t\n\x0b\x0c\r\x0e\x0f\x10\x11\x12\x13\x14\x15\x16\x17\x18\x19\x1a\x1b\x1c\x1d\x1e\x1f")
+	switch x.src {
+	case "file":
+		if err := os.WriteFile(filepath.Join(x.dir, ".secret"), x.secret, 0o600); err != nil {
+			infra("%v", err)
+			return
+		}
+	case "stdin":
+		if x.p39 != "" {
+			infra("line %d: -stdin cannot be combined with the BIP39 passphrase prompt", x.line)
+			return
+		}
+	case "typed", "typedsave":
+	case "forceask": // -p: the typed password counts although a .secret file with something else is there
+		os.WriteFile(filepath.Join(x.dir, ".secret"), []byte("not the password"), 0o600)
+	default:
+		infra("line %d: unknown password source %q", x.line, x.src)
 		return
 	}
+	count(st.BySrc, x.src+"/"+syn+"/"+cf.Seedsyn)
 	count(st.ByAtype, cf.Atype)
 	count(st.ByDepth, fmt.Sprint(len(c.Path)))
 	count(st.BySeed, c.Out.Seed.K+fmt.Sprintf("/scrypt%d", cf.Scrypt))
 
 	// ---- run the listing twice
-	args := append([]string{"-l"}, x.extra...)
-	r1, err := runWallet(x.dir, x.stdin, args...)
+	r1, err := x.exec("-l")
 	x.log = append(x.log, r1)
 	if err != nil {
 		infra("line %d: %v", x.line, err)
@@ -436,14 +638,33 @@ func (x *lcase) run(w int) {
 	}
 	t1, _ := os.ReadFile(filepath.Join(x.dir, "wallet.txt"))
 	os.Remove(filepath.Join(x.dir, "wallet.txt"))
-	r2, err := runWallet(x.dir, x.stdin, args...)
+	if x.src == "typedsave" && r1.Code == 0 {
+		// the file the wallet saved is what every later run reads: it must hold exactly the password that was typed
+		sv, rerr := os.ReadFile(filepath.Join(x.dir, ".secret"))
+		if rerr != nil {
+			x.fail("secret-not-saved", "`Save the password on disk?` was answered y but there is no .secret file afterwards", nil)
+			return
+		}
+		if string(sv) != x.typed {
+			x.fail("saved-secret-differs", fmt.Sprintf("the password typed was %q, the wallet saved %q in .secret: every later run derives another wallet", x.typed, string(sv)), nil)
+			return
+		}
+		x.saved = true
+	}
+	r2, err := x.exec("-l")
+	x.log = append(x.log, r2)
 	if err != nil {
 		infra("line %d: %v", x.line, err)
 		return
 	}
 	t2, _ := os.ReadFile(filepath.Join(x.dir, "wallet.txt"))
-	if !bytes.Equal(t1, t2) || stripTimes(r1.Stdout) != stripTimes(r2.Stdout) || r1.Code != r2.Code {
-		x.fail("nondeterministic", "two runs of `wallet -l` with the same seed and configuration differ", map[string]string{"first": string(t1), "second": string(t2)})
+	interactive := x.src == "typed" || x.src == "typedsave" || x.src == "forceask"
+	if !bytes.Equal(t1, t2) || (!interactive && stripTimes(r1.Stdout) != stripTimes(r2.Stdout)) || r1.Code != r2.Code {
+		what := "two runs of `wallet -l` with the same seed and configuration differ"
+		if x.src == "typedsave" {
+			what = "the run in which the password was typed and saved and the next run, which read the saved file, list different wallets"
+		}
+		x.fail("nondeterministic", what, map[string]string{"first": string(t1), "second": string(t2)})
 		return
 	}
 
@@ -585,7 +806,7 @@ func (x *lcase) run(w int) {
 	add(&st.Keys, len(want))
 
 	// ---- -dump *: the private key behind every position
-	rd, err := runWallet(x.dir, x.stdin, append([]string{"-dump", "*"}, x.extra...)...)
+	rd, err := x.exec("-dump", "*")
 	x.log = append(x.log, rd)
 	if err != nil {
 		infra("line %d: %v", x.line, err)
@@ -594,7 +815,10 @@ func (x *lcase) run(w int) {
 	var dump [][]string
 	for _, ln := range strings.Split(rd.Stdout, "\n") {
 		fl := strings.Fields(ln)
-		if len(fl) >= 2 && len(fl[0]) >= 50 && len(fl[0]) <= 53 && !strings.Contains(ln, "config file") {
+		for len(fl) >= 2 && !(len(fl[0]) >= 50 && len(fl[0]) <= 53) { // (a prompt may precede the first line in a console dialogue)
+			fl = fl[1:]
+		}
+		if len(fl) >= 2 && !strings.Contains(ln, "config file") {
 			dump = append(dump, fl)
 		}
 	}
@@ -695,17 +919,15 @@ func (x *lcase) run(w int) {
 	}
 	add(&st.Xkeys, len(xl))
 
-	rx, err := runWallet(x.dir, x.stdin, append([]string{"-xprv"}, x.extra...)...)
+	rx, err := x.exec("-xprv")
 	x.log = append(x.log, rx)
 	if err != nil {
 		infra("line %d: %v", x.line, err)
 		return
 	}
 	var xp []XLine
-	for _, ln := range strings.Split(rx.Stdout, "\n") {
-		if m := reXp.FindStringSubmatch(ln); m != nil {
-			xp = append(xp, XLine{m[1], m[2]})
-		}
+	for _, m := range reXp.FindAllStringSubmatch(rx.Stdout, -1) { // (in a console dialogue a line may follow a prompt without a line break)
+		xp = append(xp, XLine{m[1], m[2]})
 	}
 	if len(xp) != len(c.Out.Xprvs) {
 		x.fail("xprv-lines", fmt.Sprintf("`wallet -xprv` prints %v, expected %v", tags(xp), xtags(c.Out.Xprvs)), rx.Stdout)
@@ -782,7 +1004,7 @@ func (x *lcase) run(w int) {
 
 	// ---- -words
 	if sd.K == "bip39" || sd.K == "mnemonic" {
-		rw, err := runWallet(x.dir, x.stdin, append([]string{"-words"}, x.extra...)...)
+		rw, err := x.exec("-words")
 		x.log = append(x.log, rw)
 		if err != nil {
 			infra("line %d: %v", x.line, err)
@@ -833,7 +1055,7 @@ var apiPassphrases = []string{"", " ", "  ", "TREZOR", "TREZOR ", " TREZOR", "\t
 type XLine struct{ Tag, Str string }
 
 var reX = regexp.MustCompile(`^# (Root|Prnt|Leaf): ([1-9A-HJ-NP-Za-km-z]+)\s*$`)
-var reXp = regexp.MustCompile(`^(Root|Leaf): ([1-9A-HJ-NP-Za-km-z]+)\s*$`)
+var reXp = regexp.MustCompile(`(?m)\b(Root|Leaf): ([1-9A-HJ-NP-Za-km-z]+)\s*$`)
 var reWord = regexp.MustCompile(`\s(\d+): ([a-z]+)`)
 var reTook = regexp.MustCompile(`took [^\n]*`)
 
